@@ -148,6 +148,9 @@ func (c *Ctx) rulesC01(a *coreAnchors, la *LockAnalysis) {
 			continue // checked below with shape
 		}
 		why, ok := clockWriterTable[fk]
+		if !ok {
+			why, ok = clockWriterTable[c.hostKey(w.Fn)]
+		}
 		c.check(ok, "C01.w", key, w.Instr.Pos(), "writer of Machine.clock outside setActiveStates: "+fk+" "+why)
 	}
 	ticks := clockTicksIn(a.setActive, a.fClock)
@@ -217,6 +220,12 @@ func (c *Ctx) rulesC01(a *coreAnchors, la *LockAnalysis) {
 		if _, ok := activeWriterTable[fk]; ok {
 			c.ok("C01.a", key, w.Instr.Pos(), "tabled writer: "+activeWriterTable[fk])
 			continue
+		}
+		if hk := c.hostKey(w.Fn); hk != fk {
+			if _, ok := activeWriterTable[hk]; ok {
+				c.ok("C01.a", key, w.Instr.Pos(), "helper of a tabled writer: "+activeWriterTable[hk])
+				continue
+			}
 		}
 		if fk == pm+":New" {
 			c.ok("C01.a", key, w.Instr.Pos(), "constructor")
@@ -439,12 +448,16 @@ func (c *Ctx) rulesC03(a *coreAnchors, la *LockAnalysis) {
 		for _, w := range c.writesOfField(fld) {
 			fk := funcKey(topFunc(w.Fn))
 			cnt[fk]++
-			c.check(allowedQ[fk], "C03.chk", fmt.Sprintf("%s writes %s%s", fk, fld.Name(), nth(cnt[fk]-1)), w.Instr.Pos(), "queue ticks may only be written by queueMutation/processQueue/the deadline flush in processHandlers")
+			c.check(allowedQ[fk] || allowedQ[c.hostKey(w.Fn)], "C03.chk", fmt.Sprintf("%s writes %s%s", fk, fld.Name(), nth(cnt[fk]-1)), w.Instr.Pos(), "queue ticks may only be written by queueMutation/processQueue/the deadline flush in processHandlers")
 		}
 	}
 	// the queueTick increment in processQueue is conditional on QueueTick > 0
 	fQT := c.field(pm, "Mutation", "QueueTick")
-	for i, w := range writesOfFieldIn(a.processQueue, a.fQueueTick) {
+	var pqWrites []fieldWrite
+	for _, hf := range c.hostedFns(a.processQueue) {
+		pqWrites = append(pqWrites, writesOfFieldIn(hf, a.fQueueTick)...)
+	}
+	for i, w := range pqWrites {
 		okg := false
 		for _, g := range guardsOf(w.Instr.Block()) {
 			if g.Pol && mentionsField(g.Cond, fQT) {
@@ -485,7 +498,7 @@ func (c *Ctx) refusalBlockDominates(site ssa.Instruction, a *coreAnchors, pred f
 		if !ok || d == sb {
 			continue
 		}
-		if !pred(ifi.Cond) {
+		if !pred(ifi.Cond) && !c.predicateRefuses(ifi.Cond, site.Parent(), pred) {
 			continue
 		}
 		// true outcome reaches a return of Canceled not through the site block
@@ -502,6 +515,51 @@ func (c *Ctx) refusalBlockDominates(site ssa.Instruction, a *coreAnchors, pred f
 				return true
 			}
 			st = append(st, b.Succs...)
+		}
+	}
+	return false
+}
+
+// predicateRefuses: cond is a call, on the caller's own receiver, of a bool
+// function of the module in which an If satisfying pred has a true outcome
+// that reaches `return true`: the refusal prelude extracted into a predicate.
+func (c *Ctx) predicateRefuses(cond ssa.Value, caller *ssa.Function, pred func(ssa.Value) bool) bool {
+	call, ok := cond.(*ssa.Call)
+	if !ok {
+		return false
+	}
+	h := call.Call.StaticCallee()
+	if h == nil || len(h.Blocks) == 0 || h.Pkg == nil || !inModule(h.Pkg.Pkg) {
+		return false
+	}
+	if h.Signature.Recv() != nil {
+		if len(call.Call.Args) == 0 || len(caller.Params) == 0 || call.Call.Args[0] != ssa.Value(caller.Params[0]) {
+			return false
+		}
+	}
+	for _, b := range h.Blocks {
+		if len(b.Instrs) == 0 {
+			continue
+		}
+		ifi, ok := b.Instrs[len(b.Instrs)-1].(*ssa.If)
+		if !ok || !pred(ifi.Cond) {
+			continue
+		}
+		seen := map[*ssa.BasicBlock]bool{}
+		st := []*ssa.BasicBlock{b.Succs[0]}
+		for len(st) > 0 {
+			x := st[len(st)-1]
+			st = st[:len(st)-1]
+			if seen[x] {
+				continue
+			}
+			seen[x] = true
+			if r, ok := x.Instrs[len(x.Instrs)-1].(*ssa.Return); ok && len(r.Results) == 1 {
+				if k, isK := constBool(retVals(r)[0]); isK && k {
+					return true
+				}
+			}
+			st = append(st, x.Succs...)
 		}
 	}
 	return false
